@@ -149,6 +149,112 @@ def run_shared_predicate(kind_i: int, tp: bool, tq: bool) -> Tuple[bool, bool]:
     return ok, got != "ret"
 
 
+_PATHS = {}  # type: Dict[Any, Any]
+PATH_SHAPES = ["diamond", "recreated_by_slots_dataclass"]
+
+
+def run_two_paths(shape_i: int, kind_i: int, d_post: bool, t_pre: bool, t_post: bool, t_dpost: bool, t_inv_b: bool,
+                  t_inv_a: bool) -> Tuple[bool, bool]:
+    """A contract reaches a class along two paths - a diamond A <- B, C <- D with D overriding the member, or a class that
+    is created a second time from its own namespace as ``dataclasses.dataclass(slots=True)`` does: every inherited
+    condition is still evaluated at most once per check, in the documented order."""
+    import dataclasses
+    import icontract
+    from vfw.hlib import untraced
+    shape_i, kind_i = conc(shape_i, 0, 1), conc(kind_i, 0, 1)
+    d_post = True if d_post else False
+    key = (shape_i, kind_i, d_post)
+    with untraced():
+        w = _PATHS.get(key)
+        if w is None:
+            w = {"truth": {}, "log": [], "setup": True}
+            hw = w
+
+            def mk(name: str, params: str) -> Any:
+                ns = {"hw": hw}  # type: Dict[str, Any]
+                exec("def {}({}):\n    return hw['ev']({!r})\n".format(name.replace(".", "_"), params, name), ns)
+                return ns[name.replace(".", "_")]
+
+            def ev(name: str) -> Any:
+                if hw["setup"]:
+                    return True
+                hw["log"].append(name)
+                return hw["truth"][name]
+            hw["ev"] = ev
+
+            def body(self: Any, x: Any = 1) -> Any:
+                hw["log"].append("body")
+                return 1
+            fa = icontract.ensure(mk("A.post", "result"), error=lambda: Tag("A.post"))(body)
+            fa = icontract.require(mk("A.pre", "self"), error=lambda: Tag("A.pre"))(fa)
+            member = (lambda f: f) if kind_i == 0 else property
+            A = icontract.DBCMeta("A", (icontract.DBC,), {"m": member(fa)})
+            A = icontract.invariant(mk("A.inv", "self"), error=lambda: Tag("A.inv"))(A)
+
+            def body_d(self: Any, x: Any = 1) -> Any:
+                hw["log"].append("body")
+                return 2
+            fd = body_d
+            if d_post:
+                fd = icontract.ensure(mk("D.post", "result"), error=lambda: Tag("D.post"))(fd)
+            if shape_i == 0:
+                B = icontract.DBCMeta("B", (A,), {})
+                C = icontract.DBCMeta("C", (A,), {})
+                D = icontract.DBCMeta("D", (B, C), {"m": member(fd)})
+            else:
+                D0 = icontract.DBCMeta("D", (A,), {"m": member(fd), "__annotations__": {"v": int}, "v": 1})
+                D = dataclasses.dataclass(slots=True)(D0)
+            inst = D()
+            w["call"] = (lambda: inst.m()) if kind_i == 0 else (lambda: inst.m)
+            _PATHS[key] = w
+    w["setup"] = False
+    truth = {"A.pre": t_pre, "A.post": t_post, "D.post": t_dpost}
+    seq = {"A.inv": [t_inv_b, t_inv_a]}
+    calls = {"n": 0}
+
+    def ev2(name: str) -> Any:
+        w["log"].append(name)
+        if name == "A.inv":
+            v = seq["A.inv"][min(calls["n"], 1)]
+            calls["n"] += 1
+            return v
+        return truth[name]
+    w["ev"] = ev2
+    del w["log"][:]
+    try:
+        fresh(w["call"])
+        got = "ret"
+    except Tag as err:
+        got = err.label
+    finally:
+        w["setup"] = True
+    # expected: invariant, precondition, body, inherited postcondition, own postcondition, invariant - each once
+    want_log = ["A.inv"]
+    want = "ret"
+    if not t_inv_b:
+        want = "A.inv"
+    else:
+        want_log.append("A.pre")
+        if not t_pre:
+            want = "A.pre"
+        else:
+            want_log += ["body", "A.post"]
+            if not t_post:
+                want = "A.post"
+            else:
+                if d_post:
+                    want_log.append("D.post")
+                if d_post and not t_dpost:
+                    want = "D.post"
+                else:
+                    want_log.append("A.inv")
+                    if not t_inv_a:
+                        want = "A.inv"
+    ok = got == want and w["log"] == want_log
+    note(("two_paths", PATH_SHAPES[shape_i], kind_i, d_post, got), got != "ret")
+    return ok, got != "ret"
+
+
 ALL = ["a0", "b0", "s0", "i0", "d1", "a1", "b1", "i1", "d2", "a2", "b2", "p0", "p1", "p2", "p3", "p4",
        "q0", "q1", "q2", "q3", "v0", "v1", "w0", "w1", "fg"]
 
@@ -176,6 +282,13 @@ def harnesses(tier: str) -> List[H]:
                  tiers=(tier,), timeout=200,
                  family="method / property getter of a DBC hierarchy where the same predicate function object is the condition "
                         "of an inherited and of an own postcondition (different errors)", family_size=2))
+    TP = ["shape_i", "kind_i", "d_post", "t_pre", "t_post", "t_dpost", "t_inv_b", "t_inv_a"]
+    out.append(H("two_paths", bind(run_two_paths, (), TP, {}, TP),
+                 [I("shape_i", 0, 1), I("kind_i", 0, 1), B("d_post"), B("t_pre"), B("t_post"), B("t_dpost"), B("t_inv_b"),
+                  B("t_inv_a")], tiers=(tier,), timeout=300,
+                 family="a method / property getter whose contracts (precondition, postcondition, class invariant of A) reach the "
+                        "overriding class along two paths: diamond A <- B, C <- D, or a class created twice from its namespace by "
+                        "dataclass(slots=True); with / without an own postcondition", family_size=8))
     for (kind, is_async, mode) in cfgs:
         base = "order_{}{}_{}".format(kind, "_async" if is_async else "", mode)
         if kind == "func":
